@@ -63,9 +63,7 @@ def oracle_c01(ctx, mt, cu, q, ref, res, seq):
             if not sl.strip():
                 mech = 'blank-slice'
             elif N(sl).strip() != N(e.text or '').strip():
-                if len(q.lower()) != len(q):
-                    mech = 'offsets-shifted-by-length-changing-lowercase'
-                elif N(e.text or '').strip() in N(q):
+                if N(e.text or '').strip() in N(q):
                     mech = 'text-elsewhere-in-query'
                 else:
                     mech = 'text-not-in-query'
@@ -248,6 +246,9 @@ def multi_pool(r):
     return pool
 
 
+PHONES = ['(0) 644444444', '(0)1134960009', '0161 496 0123', '+44 20 7946 0958', '(020) 7946 0958', '1-800-555-1234', '+86 138 0013 8000', '(06) 12345678',
+          '+31 6 12345678', '+49 30 123456', '+33 1 23 45 67 89', '(11) 91234-5678', '400-123-4567', '555-1234', '+1 (206) 555-1234']
+EDGE_CONTEXTS = ['{}', 'x {}', '{} y', 'call  {}  now', 'tel:\t{}', '{}\n', '\n{}', '\u00a0{}\u00a0', '({})', '"{}"', '{},', ' {} ', 'a\t{}\tb', '{} .', '- {} -']
 FILLERS = [' and then ', ' , also ', ' ; we saw ', ' but not ', ' . Later ', ' while ']
 
 
@@ -261,6 +262,9 @@ def plan(pid, tier, seed):
             jobs.append({'name': 'noise-%s-%d' % (cu, s), 'kind': 'noise', 'culture': cu, 'shard': s, 'weight': 3})
     for s in range(2 if tier == 'quick' else 6):
         jobs.append({'name': 'multi-%d' % s, 'kind': 'multi', 'shard': s, 'weight': 2})
+    if pid != 'C11':
+        for s in range(2 if tier == 'quick' else 4):
+            jobs.append({'name': 'edge-%d' % s, 'kind': 'edge', 'shard': s, 'weight': 2})
     gens = GEN_QUICK if tier == 'quick' else GEN_ALL
     if pid == 'C11':
         gens = [g for g in gens if g in ('c06', 'c07', 'c08', 'c09', 'c10')] if tier == 'thorough' else ['c06', 'c07']
@@ -355,6 +359,23 @@ def run(pid, job, ctx):
                     lib.call(m, mt, q, R)
                 except Exception:
                     pass
+    elif kind == 'edge':
+        # every expression in every white-space / punctuation context: matches that begin or end with a blank,
+        # expressions at the very start / end of the query, tabs, NBSP, newlines
+        models = [(mt, m) for rn, mt, c, m in lib.models_for(culture='en-us')]
+        r = ctx.rng('edge:%d' % job['shard'])
+        n = 12 if ctx.tier == 'quick' else 60
+        for _ in range(n):
+            pool = multi_pool(r) + PHONES
+            R = dtlib.rand_ref(r)
+            for expr in pool:
+                for c in (EDGE_CONTEXTS if ctx.tier == 'thorough' else r.sample(EDGE_CONTEXTS, 5)):
+                    q = c.format(expr)
+                    for mt, m in models:
+                        try:
+                            lib.call(m, mt, q, R)
+                        except Exception:
+                            pass
     elif kind == 'invalid':
         m = dtlib.dt_model('en-us')
         r = ctx.rng('invalid')
